@@ -136,6 +136,13 @@ def iparse_number_array(arr):
 
 
 def parse_criteria(criteria):
+    if not isinstance(criteria, string_types):
+        # COUNTIF(range, 2): a criterion that is not text selects the cells equal to it
+        if isinstance(criteria, bool):
+            return lambda a: isinstance(a, bool) and a == criteria
+        if isinstance(criteria, number_types):
+            return lambda a: isinstance(a, number_types) and not isinstance(a, bool) and a == criteria
+        return lambda a: a == criteria
     match = REGEX_CRITERIA.match(criteria)
     op = match.group('op')
     val = match.group('val')
